@@ -2100,13 +2100,19 @@ impl SstMultiBuilder {
         Ok(())
     }
 
-    fn get_builder(&mut self) -> Result<&mut SstBuilder, SError> {
+    fn get_builder(&mut self, key: &[u8]) -> Result<&mut SstBuilder, SError> {
         if self.builder.is_some() {
-            let size = self.builder.as_mut().unwrap().approximate_size();
-            if size >= TABLE_FULL_SIZE || size >= self.options.target_file_size {
+            let builder = self.builder.as_mut().unwrap();
+            let size = builder.approximate_size();
+            // Only cut between two different keys:  the versions of one key must not be spread
+            // over two files of a level, or a compaction that takes the first file alone would
+            // put the newer versions beneath the older ones.
+            if size >= TABLE_FULL_SIZE
+                || (size >= self.options.target_file_size && builder.last_key != key)
+            {
                 let builder = self.builder.take().unwrap();
                 builder.seal()?;
-                return self.get_builder();
+                return self.get_builder(key);
             }
             return Ok(self.builder.as_mut().unwrap());
         }
@@ -2131,11 +2137,11 @@ impl Builder for SstMultiBuilder {
     }
 
     fn put(&mut self, key: &[u8], timestamp: u64, value: &[u8]) -> Result<(), SError> {
-        self.get_builder()?.put(key, timestamp, value)
+        self.get_builder(key)?.put(key, timestamp, value)
     }
 
     fn del(&mut self, key: &[u8], timestamp: u64) -> Result<(), SError> {
-        self.get_builder()?.del(key, timestamp)
+        self.get_builder(key)?.del(key, timestamp)
     }
 
     fn seal(mut self) -> Result<Vec<PathBuf>, SError> {
